@@ -24,7 +24,7 @@ def one(d):
     res = {"dir": d, "property": prop}
     try:
         sh(f"{VERIF}/tools_mkwt.sh {wt}")
-        env = dict(os.environ, PYTHONPATH=wt, OMP_NUM_THREADS="1")
+        env = dict(os.environ, PYTHONPATH=wt, OMP_NUM_THREADS="1", MDTRAJ_SRC=wt)
         r0 = subprocess.run(["/venv/bin/python", d + "/demo.py"], capture_output=True, text=True, env=env, cwd=wt)
         res["demo_clean_exit"] = r0.returncode
         a = sh(f"git -C {wt} apply {d}/patch.diff")
